@@ -116,6 +116,24 @@ fn exec_fault_generic<M: Machine>(tr: &Trace, stats: &mut Stats) -> (Vec<Violati
 }
 
 pub fn exec_trace(tr: &Trace, stats: &mut Stats) -> (Vec<Violation>, Reach, Vec<(String, u64)>) {
+    if tr.isolated {
+        // fresh OS thread: no thread-local state of the library survives from earlier runs
+        let (r, st) = std::thread::scope(|sc| {
+            sc.spawn(|| {
+                let mut st = Stats::default();
+                let r = exec_trace_here(tr, &mut st);
+                (r, st)
+            })
+            .join()
+            .expect("isolated run thread panicked (harness error)")
+        });
+        stats.merge(&st);
+        return r;
+    }
+    exec_trace_here(tr, stats)
+}
+
+fn exec_trace_here(tr: &Trace, stats: &mut Stats) -> (Vec<Violation>, Reach, Vec<(String, u64)>) {
     match tr.config.as_str() {
         "free" | "trees" | "long" => dispatch_machine!(tr.machine.as_str(), exec_free_generic, tr, stats),
         "fault" => dispatch_machine!(tr.machine.as_str(), exec_fault_generic, tr, stats),
@@ -442,16 +460,16 @@ fn run_c08(ctx: &Ctx) -> i32 {
     let b1 = free_batch("C08", &C08_MACHINES, n_small, SizeClass::Small, ctx.seed, "free/small(2..64 records)");
     let b2 = if b1.violations.is_empty() { free_batch("C08", &C08_MACHINES, n_med, SizeClass::Medium, ctx.seed ^ 0x11, "free/medium(2..4096 records)") } else { Batch::default() };
     // long streams: "independent of the number of terms"
-    let (n_long, pow) = if thorough { (96u64, 7u32) } else { (24u64, 6u32) };
+    let (n_long, pow) = if thorough { (400u64, 7u32) } else { (48u64, 6u32) };
     let seed = ctx.seed;
     let b3: Batch<Art> = if b1.violations.is_empty() && b2.violations.is_empty() {
         runner::run_batch("long streams (10^5 .. 10^6 quick / 10^7 thorough records, 1 .. 10^5 chunks)", n_long, true, move |j, stats| {
-            const LONG_MACHINES: [&str; 3] = ["KahanSum<f32>", "KahanSum<f64>", "Arithmetic<f32>"];
-            let m = LONG_MACHINES[(j % 3) as usize];
+            const LONG_MACHINES: [&str; 4] = ["KahanSum<f32>", "KahanSum<f64>", "Arithmetic<f32>", "Arithmetic<f64>"];
+            let m = LONG_MACHINES[(j % 4) as usize];
             // f64 streams are capped one decade lower (the bound is the same, the cost is not)
             let p = if m.contains("f64") { pow - 1 } else { pow };
-            let tr: Trace = dispatch_machine!(m, gen_long, seed, j / 3, p);
-            trace_job(tr, (j % 3) as u32, stats, j < 3)
+            let tr: Trace = dispatch_machine!(m, gen_long, seed, j / 4, p);
+            trace_job(tr, (j % 4) as u32, stats, j < 4)
         })
     } else {
         Batch::default()
